@@ -376,7 +376,9 @@ def run(ctx):
     maps.rule_K_COPULAS(ctx)
     # what a connecter / copula MEANS is fixed per vocabulary by its table; a keyword two vocabularies share must mean the same in both
     import tables as _tb10
-    _tb10.rule_T_CROSS(ctx, _tb10.Tables(ctx))
+    _T10 = _tb10.Tables(ctx)
+    _tb10.rule_T_CROSS(ctx, _T10)
+    _tb10.rule_T_TENSE(ctx, _T10)
     ctx.undecided = ["nothing value-dependent: the desugaring and index rules are shape facts; std's usize::from_str is trusted for the decimal syntax"]
     ctx.assumptions = ["Iterator::position returns the first index satisfying the predicate (std)", "usize::from_str parses decimal"]
     ctx.trusted = ["rustc nightly front end / MIR", "mirfacts driver", "python rule layer"]
